@@ -380,3 +380,236 @@ Section CoverRatio34.
     - intros Hc. specialize (Hclose _ x Hx Hf Hc). lia.
     - intros Hk. specialize (Hkeep _ x Hx Hf Hk). lia.
   Qed.
+
+  (** ---- the potentials of the finishing phases ---- *)
+  Definition P0 (f : Z) : Z := 0.
+  Definition PX (C D f : Z) : Z := if 2 * f <? C then 0 else 12 * D.
+  Definition PY (C D f : Z) : Z := if 3 * f <? C then 0 else if 3 * f <? 2 * C then 8 * D else 16 * D.
+  Definition PZ (f : Z) : Z := 18 * f.
+
+  (** items >= C: each closes a bin of weight <= 6 D *)
+  Lemma acct_huge C D bs E l st : 0 < C -> 0 < D -> D <= C ->
+    Forall (fun x => C <= valueof x) l -> acct C D bs E P0 st ->
+    acct C D bs E P0 (dec_sub valueof true C st l).
+  Proof.
+    intros HC HD HDC. apply (acct_dec C D bs E P0 (fun x => C <= valueof x) HC).
+    - intros x Hx. lia.
+    - intros f x Hx Hf Hc. unfold P0. pose proof (Wx_le C D (valueof x) HD HDC). lia.
+    - intros f x Hx Hf Hk. lia.
+  Qed.
+
+  (** items in [C/2, C) of weight <= 4 D: two of them close a bin *)
+  Lemma acct_big C D bs E l st : 0 < C -> 0 < D ->
+    Forall (fun x => bigp C x /\ D <= 3 * (C - valueof x)) l -> acct C D bs E (PX C D) st ->
+    acct C D bs E (PX C D) (dec_sub valueof true C st l).
+  Proof.
+    intros HC HD. apply (acct_dec C D bs E (PX C D) _ HC).
+    - intros x [Hx _]. unfold bigp in Hx. lia.
+    - intros f x [Hx HDx] Hf Hc. pose proof (Wx_rest C D (valueof x) HD Hx HDx).
+      unfold PX. destruct (2 * f <? C); destruct (2 * 0 <? C) eqn:E0; lia.
+    - intros f x [Hx HDx] Hf Hk. pose proof (Wx_rest C D (valueof x) HD Hx HDx).
+      unfold bigp in Hx. unfold PX. destruct (2 * f <? C) eqn:E1; [|lia].
+      destruct (2 * (f + valueof x) <? C) eqn:E2; lia.
+  Qed.
+
+  (** items in [C/3, C/2) of weight <= 8 D / 3: three of them close a bin *)
+  Lemma acct_med C D bs E l st : 0 < C -> 0 < D ->
+    Forall (fun y => medp C y /\ D <= 9 * (C - 2 * valueof y)) l -> acct C D bs E (PY C D) st ->
+    acct C D bs E (PY C D) (dec_sub valueof true C st l).
+  Proof.
+    intros HC HD. apply (acct_dec C D bs E (PY C D) _ HC).
+    - intros y [[Hy _] _]. lia.
+    - intros f y [[Hy1 Hy2] HDy] Hf Hc. pose proof (Wy_rest C D (valueof y) HD Hy1 Hy2 HDy).
+      unfold PY. destruct (3 * 0 <? C) eqn:E0; [|lia].
+      destruct (3 * f <? C); [lia|]. destruct (3 * f <? 2 * C); lia.
+    - intros f y [[Hy1 Hy2] HDy] Hf Hk. pose proof (Wy_rest C D (valueof y) HD Hy1 Hy2 HDy).
+      unfold PY. destruct (3 * f <? C) eqn:E1.
+      + destruct (3 * (f + valueof y) <? C) eqn:E2; [lia|].
+        destruct (3 * (f + valueof y) <? 2 * C); lia.
+      + destruct (3 * f <? 2 * C) eqn:E3; [|lia].
+        destruct (3 * (f + valueof y) <? C) eqn:E2; [lia|].
+        destruct (3 * (f + valueof y) <? 2 * C) eqn:E4; lia.
+  Qed.
+
+  (** items below C/3 with D = C: the weight is six times the value *)
+  Lemma acct_small C bs E l st : 0 < C ->
+    Forall (smp C) l -> acct C C bs E PZ st -> acct C C bs E PZ (dec_sub valueof true C st l).
+  Proof.
+    intros HC. apply (acct_dec C C bs E PZ (smp C) HC).
+    - intros x [Hx _]. lia.
+    - intros f x [Hx0 Hx3] Hf Hc. unfold PZ.
+      destruct (Wz_le C C (valueof x)) as [H1 H2]; lia.
+    - intros f x [Hx0 Hx3] Hf Hk. unfold PZ.
+      destruct (Wz_le C C (valueof x)) as [H1 H2]; lia.
+  Qed.
+
+  (** ---- the parameter D of a run ---- *)
+  Notation desc := (StronglySorted (fun a b : A => valueof b <= valueof a)).
+
+  (** admissible parameters, given the big and medium items still available *)
+  Definition Dok (C : Z) (big medium : list A) (D : Z) : Prop :=
+    0 < D /\ D <= C /\
+    (D = C \/
+     (exists x, In x big /\ valueof x < C /\ D = 3 * (C - valueof x)) \/
+     (exists y, In y (tl medium) /\ D = 9 * (C - 2 * valueof y))).
+
+  Lemma Dok_incl C b1 m1 b2 m2 D : incl b1 b2 -> incl (tl m1) (tl m2) ->
+    Dok C b1 m1 D -> Dok C b2 m2 D.
+  Proof.
+    intros Hb Hm (H1 & H2 & H3). split; [exact H1|]. split; [exact H2|].
+    destruct H3 as [H3|[(x & Hx & H3)|(y & Hy & H3)]]; [left; exact H3|right; left|right; right].
+    - exists x. split; [apply Hb; exact Hx|exact H3].
+    - exists y. split; [apply Hm; exact Hy|exact H3].
+  Qed.
+
+  Lemma Dok_C C big medium : 0 < C -> Dok C big medium C.
+  Proof. intros HC. split; [exact HC|]. split; [lia|]. left. reflexivity. Qed.
+
+  Lemma fold_min_le c l : fold_right Z.min c l <= c /\ Forall (fun d => fold_right Z.min c l <= d) l.
+  Proof.
+    induction l as [|d l [IH1 IH2]]; cbn [fold_right]; [split; [lia|constructor]|].
+    split; [lia|]. constructor; [lia|]. eapply Forall_impl; [|exact IH2]. cbv beta. intros e He. lia.
+  Qed.
+
+  Lemma fold_min_in c l : fold_right Z.min c l = c \/ In (fold_right Z.min c l) l.
+  Proof.
+    induction l as [|d l IH]; cbn [fold_right]; [left; reflexivity|].
+    destruct (Z.min_spec d (fold_right Z.min c l)) as [[_ E]|[_ E]]; rewrite E.
+    - right. left. reflexivity.
+    - destruct IH as [IH|IH]; [left; exact IH|right; right; exact IH].
+  Qed.
+
+  Definition cands (C : Z) (big medium : list A) : list Z :=
+    map (fun x => 3 * (C - valueof x)) (filter (fun x => valueof x <? C) big) ++
+    map (fun y => 9 * (C - 2 * valueof y)) (tl medium).
+
+  Definition Dfin (C : Z) (big medium : list A) : Z := fold_right Z.min C (cands C big medium).
+
+  Lemma Forall_tl {T} (P : T -> Prop) (l : list T) : Forall P l -> Forall P (tl l).
+  Proof. intros H. destruct l as [|a t]; [constructor|]. inversion H; assumption. Qed.
+
+  Lemma Dfin_spec C big medium : 0 < C -> Forall (medp C) medium ->
+    Dok C big medium (Dfin C big medium) /\
+    Forall (fun x => valueof x < C -> Dfin C big medium <= 3 * (C - valueof x)) big /\
+    Forall (fun y => Dfin C big medium <= 9 * (C - 2 * valueof y)) (tl medium).
+  Proof.
+    intros HC Hm. unfold Dfin. set (D := fold_right Z.min C (cands C big medium)).
+    destruct (fold_min_le C (cands C big medium)) as [HleC Hall]. fold D in HleC, Hall.
+    unfold cands in Hall. apply Forall_app in Hall. destruct Hall as [Hb Hy].
+    rewrite Forall_map in Hb, Hy. apply Forall_tl in Hm.
+    assert (Hcase : D = C \/
+      (exists x, In x big /\ valueof x < C /\ D = 3 * (C - valueof x)) \/
+      (exists y, In y (tl medium) /\ D = 9 * (C - 2 * valueof y))).
+    { destruct (fold_min_in C (cands C big medium)) as [H|H]; fold D in H; [left; exact H|right].
+      unfold cands in H. apply in_app_or in H. destruct H as [H|H]; apply in_map_iff in H.
+      - left. destruct H as (x & Hx & Hin). apply filter_In in Hin. destruct Hin as [Hin Hlt].
+        exists x. split; [exact Hin|]. split; [lia|]. symmetry. exact Hx.
+      - right. destruct H as (y & Hy' & Hin). exists y. split; [exact Hin|]. symmetry. exact Hy'. }
+    split; [|split].
+    - split; [|split; [exact HleC|exact Hcase]].
+      destruct Hcase as [H|[(x & _ & Hx & H)|(y & Hin & H)]]; [lia|lia|].
+      rewrite Forall_forall in Hm. destruct (Hm y Hin) as [_ H2]. lia.
+    - apply Forall_forall. intros x Hx Hlt. rewrite Forall_forall in Hb. apply Hb.
+      apply filter_In. split; [exact Hx|lia].
+    - exact Hy.
+  Qed.
+
+  (** a descending list splits into the items >= C and the items < C *)
+  Lemma desc_split C (l : list A) : desc l ->
+    exists hi lo, l = hi ++ lo /\ Forall (fun x => C <= valueof x) hi /\
+                  Forall (fun x => valueof x < C) lo.
+  Proof.
+    induction l as [|x t IH]; intros Hs.
+    - exists [], []. split; [reflexivity|split; constructor].
+    - inversion Hs as [|x0 t0 Hst Hxt]; subst x0 t0.
+      destruct (Z_le_gt_dec C (valueof x)) as [Hx|Hx].
+      + destruct (IH Hst) as (hi & lo & E & H1 & H2). exists (x :: hi), lo.
+        split; [rewrite E; reflexivity|]. split; [constructor; assumption|exact H2].
+      + exists [], (x :: t). split; [reflexivity|]. split; [constructor|].
+        constructor; [lia|]. eapply Forall_impl; [|exact Hxt]. cbv beta. intros y Hy. lia.
+  Qed.
+
+  Lemma dec_sub_app C st (l1 l2 : list A) :
+    dec_sub valueof true C st (l1 ++ l2) = dec_sub valueof true C (dec_sub valueof true C st l1) l2.
+  Proof. unfold dec_sub. apply fold_left_app. Qed.
+
+  (** ---- the finishing phase after the small items ran out ---- *)
+  Lemma finish_B C D bs E big medium st : 0 < C -> 0 < D -> D <= C ->
+    desc big -> Forall (bigp C) big -> Forall (medp C) medium ->
+    Forall (fun x => valueof x < C -> D <= 3 * (C - valueof x)) big ->
+    Forall (fun y => D <= 9 * (C - 2 * valueof y)) (tl medium) ->
+    acct C D bs E P0 st ->
+    acct C D bs (E + 13 * D) (PY C D)
+      (dec_sub valueof true C (dec_sub valueof true C st big) medium).
+  Proof.
+    intros HC HD HDC Hs Hb Hm HDb HDm Hst.
+    destruct (desc_split C big Hs) as (hi & lo & Ebig & Hhi & Hlo). subst big.
+    rewrite dec_sub_app. apply Forall_app in Hb. destruct Hb as [_ Hblo].
+    apply Forall_app in HDb. destruct HDb as [_ HDlo].
+    set (s1 := dec_sub valueof true C st hi).
+    assert (H1 : acct C D bs E P0 s1) by (apply acct_huge; assumption).
+    set (s2 := dec_sub valueof true C s1 lo).
+    assert (H2 : acct C D bs E (PX C D) s2).
+    { apply acct_big; try assumption.
+      - rewrite Forall_forall in Hblo, HDlo, Hlo |- *. intros x Hx.
+        split; [apply Hblo; exact Hx|apply HDlo; [exact Hx|apply Hlo; exact Hx]].
+      - apply (acct_weaken C D bs E P0); [exact H1|].
+        unfold P0, PX. destruct (2 * fst (snd s1) <? C); lia. }
+    assert (H3 : acct C D bs (E + 12 * D) P0 s2).
+    { apply (acct_weaken C D bs E (PX C D)); [exact H2|].
+      unfold P0, PX. destruct (2 * fst (snd s2) <? C); lia. }
+    destruct medium as [|y0 rest].
+    - unfold dec_sub at 1. cbn [fold_left]. apply (acct_weaken C D bs (E + 12 * D) P0); [exact H3|].
+      unfold P0, PY. destruct (3 * fst (snd s2) <? C); [lia|].
+      destruct (3 * fst (snd s2) <? 2 * C); lia.
+    - cbn [tl] in HDm. inversion Hm as [|y1 r1 [Hy1 Hy2] Hrest]; subst y1 r1.
+      change (y0 :: rest) with ([y0] ++ rest). rewrite dec_sub_app.
+      pose proof (Wy_le C D (valueof y0) HD Hy1 Hy2) as Hw. pose proof H3 as (Hf & _).
+      apply acct_med; try assumption.
+      + rewrite Forall_forall in Hrest, HDm |- *. intros y Hy.
+        split; [apply Hrest; exact Hy|apply HDm; exact Hy].
+      + unfold dec_sub. cbn [fold_left].
+        apply (acct_step C D bs (E + 12 * D) P0 (E + 13 * D) (PY C D) s2 y0 H3); [lia| | |exact HC].
+        * intros Hc. unfold P0, PY. destruct (3 * 0 <? C) eqn:E0; lia.
+        * intros Hk. unfold P0, PY.
+          destruct (3 * (fst (snd s2) + valueof y0) <? C) eqn:E1; [lia|].
+          destruct (3 * (fst (snd s2) + valueof y0) <? 2 * C); lia.
+  Qed.
+
+  (** ---- filling a bin with the smallest small items ---- *)
+  Definition room (C D f : Z) : Z := if f <? C then 6 * (C - f) + 2 * D else 0.
+
+  Lemma fill_w C D : 0 < D -> forall fuel (cur : bin A) small cur1 small',
+    fill_small valueof true fuel C cur small = (cur1, small') ->
+    Forall (smp C) small -> (length small <= fuel)%nat ->
+    Forall (smp C) small' /\ (C <= fst cur1 \/ small' = []) /\
+    exists used, snd cur1 = snd cur ++ used /\ fst cur1 = fst cur + vsum used /\
+      wsum4 C D used <= room C D (fst cur).
+  Proof.
+    intros HD.
+    assert (Base : forall (cur : bin A) small cur1 small',
+      (cur, small) = (cur1, small') -> Forall (smp C) small -> (C <= fst cur \/ small = []) ->
+      Forall (smp C) small' /\ (C <= fst cur1 \/ small' = []) /\
+      exists used, snd cur1 = snd cur ++ used /\ fst cur1 = fst cur + vsum used /\
+        wsum4 C D used <= room C D (fst cur)).
+    { intros cur small cur1 small' E Hs Hor. inversion E; subst cur1 small'.
+      split; [exact Hs|]. split; [exact Hor|]. exists []. rewrite app_nil_r.
+      split; [reflexivity|]. split; [cbn; lia|]. rewrite wsum4_nil. unfold room.
+      destruct (fst cur <? C) eqn:Ef; lia. }
+    induction fuel as [|f IH]; intros cur small cur1 small' E Hs Hlen; cbn [fill_small] in E.
+    - apply (Base cur small); [exact E|exact Hs|]. right. destruct small; [reflexivity|cbn in Hlen; lia].
+    - destruct (fst cur <? C) eqn:EC; [|apply (Base cur small); [exact E|exact Hs|left; lia]].
+      destruct (unsnoc small) as [[r y]|] eqn:U.
+      + apply unsnoc_Some in U. subst small. apply Forall_app in Hs. destruct Hs as [Hr Hy].
+        inversion Hy as [|y0 t0 [Hy0 Hy3] _]; subst y0 t0.
+        rewrite app_length in Hlen. cbn [length] in Hlen.
+        destruct (IH _ _ _ _ E Hr ltac:(lia)) as (H1 & H2 & used & H3 & H4 & H5).
+        split; [exact H1|]. split; [exact H2|]. exists (y :: used).
+        cbn [add_to_bin fst snd] in H3, H4, H5.
+        split; [rewrite H3, <- app_assoc; reflexivity|].
+        split; [rewrite H4, vsum4_cons; lia|]. rewrite wsum4_cons.
+        destruct (Wz_le C D (valueof y)) as [W1 W2]; [lia|lia|].
+        unfold room in H5 |- *. rewrite EC.
+        destruct (fst cur + valueof y <? C) eqn:E2; lia.
+      + apply unsnoc_None in U. apply (Base cur small); [exact E|exact Hs|right; exact U].
+  Qed.
